@@ -74,6 +74,28 @@ def to_pairs(v):
     return v
 
 
+def deeper(n, f):
+    """f() called n frames further down the stack."""
+    return f() if n <= 0 else deeper(n - 1, f)
+
+
+STACK_MARGIN = 60
+UNSETTLED = ("unsettled",)
+
+
+def deep_texts():
+    """Labels nested so deeply that loading still works and writing runs out of stack
+    (depths well inside that band, see stack_stable())."""
+    out = []
+    for depth, kw in ((700, ("OBJECT", "END_OBJECT")), (700, ("GROUP", "END_GROUP")),
+                      (40, ("OBJECT", "END_OBJECT"))):
+        out.append("".join(f"{kw[0]} = b{i}\n" for i in range(depth)) + "x = 1\n" +
+                   "".join(f"{kw[1]}\n" for i in range(depth)) + "END\n")
+    for depth, (o, c) in ((270, "()"), (270, "{}"), (30, "()"), (2, "()"), (3, "{}")):
+        out.append("a = 1\nv = " + o * depth + "1" + c * depth + "\nEND\n")
+    return out
+
+
 def check_translate(text, fmt):
     """None or (signature, detail)."""
     d = workdir()
@@ -93,15 +115,19 @@ def check_translate(text, fmt):
     except Exception as e:
         cli = ("raised", type(e).__name__)
     # the library call it fronts
-    try:
-        m = pvl.load(inp)
-        if fmt == "JSON":
-            lib = ("ok", json.dumps(m).encode("utf-8"))
-        else:
-            lib = ("ok", pvl.dumps(m, encoder=FORMAT_ENCODER[fmt]()).encode("utf-8"))
-    except Exception as e:
-        lib = ("raised", type(e).__name__)
-        m = None
+    def library():
+        try:
+            m = pvl.load(inp)
+            if fmt == "JSON":
+                return ("ok", json.dumps(m).encode("utf-8")), m
+            return ("ok", pvl.dumps(m, encoder=FORMAT_ENCODER[fmt]()).encode("utf-8")), m
+        except Exception as e:
+            return ("raised", type(e).__name__), None
+
+    lib, m = library()
+    if "RecursionError" in (lib[1], cli[1]) and \
+            deeper(STACK_MARGIN, library)[0][0] != lib[0]:
+        return UNSETTLED      # the outcome depends on how deep the caller's stack is
     if cli[0] != lib[0]:
         return (f"C20/translate/{fmt}/outcome-differs",
                 f"pvl_translate -of {fmt}: {cli[:2]!r:.120}; library call: "
@@ -116,8 +142,12 @@ def check_translate(text, fmt):
                 got = json.loads(cli[1].decode("utf-8"), object_pairs_hook=list)
             except Exception as e:
                 return ("C20/translate/JSON/unparseable", f"{e!r}: {cli[1][:200]!r}")
-            want = json.loads(json.dumps(to_pairs(m)))
-            if normalise_pairs(got) != normalise_pairs(want):
+            try:
+                want = json.loads(json.dumps(to_pairs(m)))
+                differs = normalise_pairs(got) != normalise_pairs(want)
+            except RecursionError:
+                differs = False   # too deep for the harness's own walk; bytes agreed
+            if differs:
                 return ("C20/translate/JSON/content-differs",
                         f"JSON {got!r:.300} vs label {want!r:.300}")
     return None
@@ -176,23 +206,39 @@ def parse_report(out, files):
 
 
 def expected_rows(text):
+    """{dialect: (loads, encodes)}; ("spins", None) when the load does not terminate,
+    ("unsettled", None) when the verdict depends on the depth of the caller's stack
+    (a RecursionError that a slightly shallower or deeper call would not meet)."""
     rows = {}
     for name, make in c16.VALIDATE_FRESH.items():
-        parser, encoder = make()
-        parser.lexer = counting_lexer()
-        try:
-            m = parser.parse(text)
-        except BudgetExceeded:
-            rows[name] = ("spins", None)
-            continue
-        except Exception:
-            rows[name] = (False, None)
-            continue
-        try:
-            encoder.encode(m)
-            rows[name] = (True, True)
-        except Exception:
-            rows[name] = (True, False)
+        def one():
+            parser, encoder = make()
+            parser.lexer = counting_lexer()
+            rec = False
+            try:
+                m = parser.parse(text)
+            except BudgetExceeded:
+                return ("spins", None), False
+            except RecursionError:
+                return (False, None), True
+            except Exception:
+                return (False, None), False
+            try:
+                encoder.encode(m)
+                return (True, True), False
+            except RecursionError:
+                return (True, False), True
+            except Exception:
+                return (True, False), False
+
+        row, rec = one()
+        if rec:
+            # only a verdict that survives STACK_MARGIN more (and, for the CLI, a few)
+            # frames is compared
+            other, _ = deeper(STACK_MARGIN, one)
+            if other != row or row == (False, None):
+                row = ("unsettled", None)
+        rows[name] = row
     return rows
 
 
@@ -229,7 +275,7 @@ def check_validate(texts):
         want = expected_rows(pvl.get_text_from(p))
         for name, w in want.items():
             g = rep[p].get(name)
-            if w[0] == "spins":
+            if w[0] in ("spins", "unsettled"):
                 continue
             if g != w:
                 which = "loads" if (g is None or g[0] != w[0]) else "encodes"
@@ -304,6 +350,9 @@ def random_cases(acc, n, seed):
             nt = True
             acc.event(f"validate:{len(case[1])}-files")
             cj = dict(kind="validate", texts=case[1])
+        if r == UNSETTLED:
+            acc.event("stack-depth-sensitive (not compared)")
+            r = None
         acc.case(key=repr(case), nontrivial=nt,
                  sample={"kind": case[0], "arg": repr(case[1:])[:200]} if nt else None)
         acc.event("ok" if r is None else "fail")
@@ -316,15 +365,48 @@ def random_cases(acc, n, seed):
         shutil.rmtree(workdir(), ignore_errors=True)
 
 
+def deep_cases(acc, idx):
+    """One deeply nested label (expensive, so each gets a shard of its own): validated
+    alone and next to an ordinary file, translated to every format."""
+    text = deep_texts()[idx]
+    todo = [("validate", [text]), ("validate", ["a = 1\nEND\n", text])]
+    todo += [("translate", text, f) for f in ("PDS3", "ODL", "ISIS", "PVL", "JSON")]
+    try:
+        for case in todo:
+            if acc.expired():
+                acc.notes["budget_exhausted"] = 1
+                return
+            if case[0] == "translate":
+                r = check_translate(case[1], case[2])
+                cj = dict(kind="translate", text=case[1], fmt=case[2])
+            else:
+                r = check_validate(case[1])
+                cj = dict(kind="validate", texts=case[1])
+            if r == UNSETTLED:
+                acc.event("stack-depth-sensitive (not compared)")
+                r = None
+            acc.event(f"deep-nesting:{case[0]}")
+            acc.case(key=repr((idx,) + case[:1] + case[2:]), nontrivial=True,
+                     sample={"kind": case[0], "deep_text": idx,
+                             "starts": text[:40]} if case[0] == "validate" else None)
+            if r is not None:
+                acc.fail(r[0], cj, r[1])
+    finally:
+        shutil.rmtree(workdir(), ignore_errors=True)
+
+
 def shards(tier, seed):
     n = 160 if tier == "quick" else 1500
-    return [("random_cases", dict(n=n, seed=seed * 1000 + j)) for j in range(16)]
+    out = [("deep_cases", dict(idx=i)) for i in range(len(deep_texts()))]
+    out += [("random_cases", dict(n=n, seed=seed * 1000 + j)) for j in range(16)]
+    return out
 
 
 def replay(case):
     try:
         if case["kind"] == "translate":
-            return check_translate(case["text"], case["fmt"])
+            r = check_translate(case["text"], case["fmt"])
+            return None if r == UNSETTLED else r
         return check_validate(case["texts"])
     finally:
         shutil.rmtree(workdir(), ignore_errors=True)
